@@ -31,7 +31,8 @@ theorem truncInt_nonneg {unit x : Int} (hu : 0 < unit) (hx : 0 ≤ x) : 0 ≤ tr
 /-- what the static assertions give for one node -/
 theorem static_node (i : Inst) (e0 : Int) (h : checkStatic i e0 = true) (j : Nat) (hj : j ≤ i.base.n) :
     0 ≤ i.twS j ∧ 0 ≤ i.dur j ∧ i.twS j < i.twE j := by
-  simp only [checkStatic, List.all_eq_true, List.mem_range, Bool.and_eq_true, decide_eq_true_eq] at h
+  simp only [checkStatic, List.all_eq_true, List.mem_range, Bool.and_eq_true, decide_eq_true_eq,
+    Params.cvrptwCheckOrderCmp, Params.cvrptwCheckStaticCmp, Cmp.eval] at h
   have := h j (by omega)
   exact ⟨this.1.1.1.1.2, this.1.2, this.2⟩
 
@@ -204,6 +205,11 @@ theorem check_row0_dependence :
           · split <;> omega)
       (by decide) _ ((feasible_iff _ _).1 (by decide))
   · have : checkStatic exInst 2 = false := by decide
-    simp [check, this]
+    simp [check, Params.cvrptwCheckRow0, this]
+
+/-- the static assertion `tw_start + dist + duration <= depot deadline` admits equality (customer 2 of the
+boundary instance: 0 + 3 + 0 = 3) and rejects one tick less — depends on the extracted operator
+`Params.cvrptwCheckStaticCmp = le`. -/
+theorem checkStatic_boundary : checkStatic exInst 3 = true ∧ checkStatic exInst 2 = false := by decide
 
 end Rl4co.Cvrptw
